@@ -1,6 +1,7 @@
 import Slu.Model.Order
 import SluProofs.Lemmas.Order
 import SluProofs.Lemmas.EtreeDef
+import SluProofs.Lemmas.Relax
 /-
 C10 — Column orderings are permutations; elimination tree exact and postordered.
 
@@ -228,15 +229,71 @@ theorem spPreorder_subtrees (A : Pat) (p : Array Nat) (hp : isPerm A.n p = true)
     exact desc_relabel (q := fun k => (treePostorder A.n (coletree A.m A.n (permView A p).col)).getD k 0) hlt hrel hd
 
 
-/-
-`relaxSnode_ranges_goal` (should, NOT fully proved): on a postordered forest the relaxed supernodes
-recorded by relax_snode are disjoint consecutive ranges `[s, relax_end s]`, each of them the whole
-subtree of its last column, that column having fewer than `relax` descendants, and every leaf lies in
-one.  Proved below: the range part (well-formed, ordered, no range starts inside another - hence
-disjoint).  Missing: "whole subtree", and that the `descendants` array of the first loop is the true
-descendant count; the driver evaluates exactly these clauses on every run (`relaxProp`).
--/
-/-- **relax_snode, ranges** (partial).  On every heap-ordered forest: `relax_end` has `n` entries; an entry
+/-- **relax_snode on a postordered forest** (relax_snode.c; the tree `sp_preorder` returns unless
+SymmetricMode is such a forest, `spPreorder_subtrees`).  For every heap-ordered forest in which the
+descendants of every vertex `v` are the indices of a block `lo..v`, and every `relax`:
+* the `descendants` array of the first loop holds the true number of proper descendants, `v - lo`;
+* `relax_end` has `n` entries; an entry is EMPTY (-1) or the last column `e ≥ s` of a supernode starting
+  at `s`, and then the columns `s..e` are EXACTLY the subtree of `e` (every relaxed supernode is a whole
+  subtree), which has fewer than `relax` proper descendants when it has more than one column; no other
+  supernode starts inside `(s, e]`, so the supernodes are pairwise disjoint;
+* every leaf lies in one of the recorded supernodes. -/
+theorem relaxSnode_ranges (n relax : Nat) (et : Array Nat) (h : Heap n et)
+    (hpost : ∀ v < n, ∃ lo, ∀ u < n, Desc n et u v ↔ lo ≤ u ∧ u ≤ v) :
+    (relaxSnode n relax et).2.size = n ∧
+    (∀ v < n, ∀ lo, (∀ u < n, Desc n et u v ↔ lo ≤ u ∧ u ≤ v) → (relaxSnode n relax et).1.getD v 0 = v - lo) ∧
+    (∀ s < n, (relaxSnode n relax et).2.getD s (-1) = -1 ∨
+      ∃ e : Nat, (relaxSnode n relax et).2.getD s (-1) = Int.ofNat e ∧ s ≤ e ∧ e < n ∧
+        (∀ u < n, Desc n et u e ↔ s ≤ u ∧ u ≤ e) ∧ (s < e → e - s < relax) ∧
+        ∀ t, s < t → t ≤ e → (relaxSnode n relax et).2.getD t (-1) = -1) ∧
+    (∀ k < n, (∀ u < n, Desc n et u k → u = k) →
+      ∃ s e : Nat, s ≤ k ∧ k ≤ e ∧ (relaxSnode n relax et).2.getD s (-1) = Int.ofNat e) := by
+  -- a function giving the first vertex of every subtree
+  have hpost' : ∀ v, ∃ lo, v < n → ∀ u < n, Desc n et u v ↔ lo ≤ u ∧ u ≤ v := by
+    intro v
+    by_cases hv : v < n
+    · obtain ⟨lo, hlo⟩ := hpost v hv; exact ⟨lo, fun _ => hlo⟩
+    · exact ⟨0, fun hc => absurd hc hv⟩
+  choose lo hlo using hpost'
+  have hp : PostBy n et lo := fun v hv u hu => hlo v hv u hu
+  have hdesc : ∀ v, v < n → (descendants n et).getD v 0 = v - lo v := fun v hv => hp.descendants h v hv
+  -- `lo` is determined by the subtree
+  have hlo_unique : ∀ v, v < n → ∀ lo', (∀ u < n, Desc n et u v ↔ lo' ≤ u ∧ u ≤ v) → lo' = lo v := by
+    intro v hv lo' hl'
+    have a1 := hp.lo_le v hv
+    have a2 : lo' ≤ v := ((hl' v hv).mp (Desc.refl v)).1
+    have b1 := ((hl' (lo v) (by omega)).mp ((hp v hv (lo v) (by omega)).mpr ⟨Nat.le_refl _, a1⟩)).1
+    have b2 := ((hp v hv lo' (by omega)).mp ((hl' lo' (by omega)).mpr ⟨Nat.le_refl _, a2⟩)).1
+    omega
+  unfold relaxSnode
+  simp only
+  obtain ⟨j', hj', hs, hhi, hlow, _, _, hcov⟩ := relaxLoop_inv2 (relax := relax) h hp hdesc (n + 1) 0
+    (Array.replicate n (-1))
+    ⟨by simp, fun s _ => by
+        simp only [Array.getD_eq_getD_getElem?, Array.getElem?_replicate]; split <;> rfl,
+      fun s hs => by omega, fun v _ hl _ => by omega, fun h0 => by have := hp.lo_le 0 h0; omega,
+      fun k hk => by omega⟩ (by omega)
+  refine ⟨hs, ?_, ?_, ?_⟩
+  · intro v hv lo' hl'
+    rw [firstN_getD _ _ _ hv, hdesc v hv, hlo_unique v hv lo' hl']
+  · intro s hsn
+    rcases hlow s (by omega) with h1 | ⟨e, h1, h2, _, h4, h5, h6, h7⟩
+    · exact Or.inl h1
+    · right
+      refine ⟨e, h1, h2, h4, ?_, ?_, h7⟩
+      · intro u hu
+        rw [hp e h4 u hu, h5]
+      · intro hlt
+        have := h6 hlt
+        rw [hdesc e h4, h5] at this
+        exact this
+  · intro k hk hleaf
+    apply hcov k (by omega) hk
+    have hl := hp.lo_le k hk
+    have := hleaf (lo k) (by omega) ((hp k hk (lo k) (by omega)).mpr ⟨Nat.le_refl _, hl⟩)
+    exact this
+
+/-- **relax_snode, ranges** (any heap-ordered forest, postordered or not).  On every heap-ordered forest: `relax_end` has `n` entries; an entry
 is EMPTY (-1) or the last column `e` of a range `s ≤ e < n`; no range starts inside `(s, e]`, so the
 recorded ranges are pairwise disjoint; a range of more than one column ends at a column whose
 `descendants` count (first loop of the routine) is below `relax`. -/
@@ -260,6 +317,13 @@ theorem relaxSnode_ranges_partial (n relax : Nat) (et : Array Nat) (h : Heap n e
 
 
 /-! ### hypotheses are satisfiable / the statements are not vacuous -/
+
+/-- the hypotheses of `relaxSnode_ranges` hold for the tree `sp_preorder` hands to `relax_snode`
+(every pattern, every permutation, SymmetricMode off): the statement is not vacuous -/
+example (A : Pat) (p : Array Nat) (hp : isPerm A.n p = true) (relax : Nat) :
+    (relaxSnode A.n relax (spPreorder A p false).etree).2.size = A.n :=
+  (relaxSnode_ranges A.n relax (spPreorder A p false).etree (spPreorder_perm A p false hp).2.2.2.2.2.2.2
+    (spPreorder_subtrees A p hp)).1
 
 /-- a 3x3 arrow pattern: columns {0,1,2}, {0,1}, {0,2} -/
 def exA : Pat := { m := 3, n := 3, colptr := #[0, 3, 5, 7], rowind := #[0, 1, 2, 0, 1, 0, 2] }
